@@ -55,5 +55,10 @@ report["check_exit"] = rc; report["check_caught"] = (rc == 1 and "VIOLATION" in 
 dst = "/verif/seeded/%s" % x; os.makedirs(dst, exist_ok=True)
 shutil.copy(patch, dst); shutil.copy(demo, dst)
 meta["breaks_property"] = pid; meta["confirmation"] = report
+try:
+    old = json.load(open(os.path.join(dst, "meta.json")))
+    if old.get("history"): meta["history"] = old["history"]
+    elif old.get("confirmation", {}).get("seed_valid") and not old["confirmation"].get("check_caught") and report["check_caught"]: meta["history"] = "missed when delivered; caught after the check was strengthened"
+except Exception: pass
 json.dump(meta, open(os.path.join(dst, "meta.json"), "w"), indent=1)
 print("%s valid=%s caught=%s tests=%s demo(unchanged,patched)=(%s,%s) %s" % (x, ok, report["check_caught"], [s[:6] for _, s in report.get("unit_tests_with_patch", [])], report.get("demo_unchanged_rc"), report.get("demo_patched_rc"), report["check_first_violation"][:160]))
